@@ -77,21 +77,46 @@ func cmdVC(args []string) {
 	only := fs.String("only", "", "only obligations whose name contains this")
 	dump := fs.Bool("dump", false, "only write the queries")
 	diag := fs.Bool("diag", false, "split failed goals into conjuncts")
+	sites := fs.Bool("sites", false, "list call sites")
 	port := fs.String("solvers", "z3-new", "comma-separated portfolio")
 	fs.Parse(args)
 	W, err := LoadWorld(repoDir())
 	if err != nil {
 		die("load: %v", err)
 	}
-	vcs, problems := generateFor(W, fs.Args())
+	var fnames, lnames []string
+	for _, a := range fs.Args() {
+		if strings.HasPrefix(a, "lemma:") {
+			lnames = append(lnames, strings.TrimPrefix(a, "lemma:"))
+		} else {
+			fnames = append(fnames, a)
+		}
+	}
+	var vcs []*FuncVC
+	var problems []string
+	if len(fnames) > 0 || len(lnames) == 0 {
+		vcs, problems = generateFor(W, fnames)
+	}
 	for _, p := range problems {
 		fmt.Println("PROBLEM:", p)
 	}
 	var obls []*Obligation
 	for _, vc := range vcs {
 		for _, o := range vc.obls {
-			if *only == "" || strings.Contains(o.Name, *only) {
+			if *only == "" {
 				obls = append(obls, o)
+				continue
+			}
+			for _, pat := range strings.Split(*only, ",") {
+				if strings.Contains(o.Name, pat) {
+					obls = append(obls, o)
+					break
+				}
+			}
+		}
+		if *sites {
+			for _, st := range vc.sites {
+				fmt.Println("SITE", vc.name, st)
 			}
 		}
 		for _, u := range vc.unsup {
@@ -111,16 +136,26 @@ func cmdVC(args []string) {
 			fmt.Printf("UNCONTRACTED callees of %s: %s\n", vc.name, strings.Join(unc, ", "))
 		}
 	}
+	for _, o := range lemmaObligations(W, "") {
+		for _, n := range lnames {
+			if o.Name == "lemma/"+n || n == "all" {
+				obls = append(obls, o)
+			}
+		}
+	}
 	if *dump {
 		os.MkdirAll(outDir, 0o755)
 		for _, o := range obls {
+			o.Level = 1
+			os.WriteFile(obFile(o, ".l1"), []byte(o.Query(false)), 0o644)
+			o.Level = 2
 			os.WriteFile(obFile(o, ""), []byte(o.Query(false)), 0o644)
 		}
 		fmt.Printf("%d queries written to %s\n", len(obls), outDir)
 		return
 	}
 	start := time.Now()
-	solveAll(obls, time.Duration(*timeout)*time.Second, strings.Split(*port, ","), 16)
+	solveAll(obls, time.Duration(*timeout)*time.Second, strings.Split(*port, ","), 6)
 	bad := 0
 	for _, o := range obls {
 		if o.Status != "proved" {
